@@ -666,6 +666,14 @@ def _impl_live(case, coq, env, psutil):
                                        % (real[:80], want, req, printed))
                 if os.readlink("/proc/self/fd/%d" % want) != raw:
                     raise RuntimeError("C14 live: link target %r, expected %r" % (os.readlink("/proc/self/fd/%d" % want), raw))
+        # the real /proc/<pid>/io has the shape Spec.k_io prints for KV items (values move between reads: shape only)
+        import re
+        with open("/proc/self/io", "rb") as f:
+            io_lines = f.read().split(b"\n")
+        names = [b"rchar", b"wchar", b"syscr", b"syscw", b"read_bytes", b"write_bytes", b"cancelled_write_bytes"]
+        if io_lines[-1] != b"" or [l.split(b": ")[0] for l in io_lines[:-1]] != names or not all(
+                re.fullmatch(rb"[a-z_]+: [0-9]+", l) for l in io_lines[:-1]):
+            raise RuntimeError("C14 live: /proc/self/io is not of the shape Spec.k_io prints: %r" % (io_lines,))
         mine = {e["fd"] for e in case["ents"]}
 
         def conv(rows):
